@@ -41,7 +41,7 @@ def plan(tier, seed):
 
 
 class View:
-    def __init__(self, view, dt, factor, descs, bitdefs):
+    def __init__(self, view, dt, factor, descs, bitdefs, limits=None):
         import canopen
         self.view, self.dt = view, dt
         idx = gen.TYPE_INDEX_BASE + dt
@@ -50,6 +50,8 @@ class View:
             d = gen.typed_od(rpdos=(), tpdos=(1,))
             v = d[idx]
             v.factor = factor
+            if limits:
+                v.min, v.max = limits          # LowLimit / HighLimit: raw units, like everything an EDS says about the object
             for val, name in descs.items():
                 v.add_value_description(val, name)
             for name, bits in bitdefs.items():
@@ -110,26 +112,44 @@ def run_one(ctx, desc):
     while len(vals) < n_desc:
         vals.add(rng.choice([lo, hi, 0, 1, rng.randint(lo, hi), rng.randint(max(lo, -50), min(hi, 50))]))
     descs = {v: f"State {i} ({v})" for i, v in enumerate(sorted(vals))}
+    if n_desc >= 2 and rng.random() < 0.6:
+        # descriptions that differ only in letter case or surrounding blanks are different descriptions
+        # (SI prefixes "m"/"M", "Auto"/"AUTO"/"auto "): each must write exactly the value it names
+        family = rng.choice([["m", "M", " m", "M "], ["Auto", "AUTO", "auto", "auto ", " Auto"], ["on", "On", "ON", "oN"]])
+        ks = sorted(vals)
+        rng.shuffle(ks)
+        for key, text in zip(ks, family[:rng.randint(2, len(family))]):
+            descs[key] = text
+    limits = None
+    if (desc["cs"] // 3) % 3 == 1 and hi - lo > 64:
+        # the object declares limits (raw units); requests stay inside them
+        limits = (rng.randint(lo, lo // 2) if lo < 0 else rng.randint(0, hi // 8), rng.randint(hi // 2, hi))
     maxbit = min(32, width)
     bitdefs = {}
     for i in range(6):
         a = rng.randrange(maxbit)
         b = rng.randint(a + 1, maxbit)
         bitdefs[f"field{i}"] = list(range(a, b))
-    v = View(view, dt, factor, descs, bitdefs)
-    case0 = {"view": view, "type": name, "factor": factor}
+        if i % 2:
+            bitdefs[f"field{i}"].reverse()          # a definition entered most significant bit first
+    v = View(view, dt, factor, descs, bitdefs, limits)
+    case0 = {"view": view, "type": name, "factor": factor, "limits": limits}
+    plo, phi = limits if limits else (lo, hi)
     try:
         # ---- physical values
         for _ in range(desc["n_phys"]):
-            raw_target = rng.choice([lo, hi, 0, 1, -1 if lo < 0 else 1, rng.randint(lo, hi), rng.randint(max(lo, -1000), min(hi, 1000))])
+            raw_target = rng.choice([lo, hi, 0, 1, -1 if lo < 0 else 1, rng.randint(lo, hi), rng.randint(max(lo, -1000), min(hi, 1000)),
+                                     plo + 2, phi - 2, rng.randint(plo, phi)])
             x = raw_target * factor + rng.choice([0, 0, 0.3, -0.3, 0.49, -0.49, rng.uniform(-0.5, 0.5)]) * abs(factor)
             if rng.random() < 0.2:
                 x = round(x) if abs(x) < 2**52 else x        # integers as physical values too
             q = Fraction(x) / Fraction(factor)
-            if not (lo <= q - 1 and q + 1 <= hi):
+            margin = max(1, abs(q) / 10**9)       # the tolerated float division error must not leave the type's range
+            if not (plo <= q - 1 and q + 1 <= phi and lo <= q - margin and q + margin <= hi):
                 continue
             case = dict(case0, op="phys", x=x)
-            ctx.case((view, name, "phys", "negf" if factor < 0 else "posf", "int" if isinstance(x, int) else "float"), nontrivial=True)
+            ctx.case((view, name, "phys", "negf" if factor < 0 else "posf", "int" if isinstance(x, int) else "float",
+                      "limits" if limits else "nolimits"), nontrivial=True)
             try:
                 v.accessor().phys = x
                 raw = v.stored_raw()
@@ -216,14 +236,23 @@ def run_one(ctx, desc):
         ranges = [(a, b) for a in range(maxbit) for b in range(a + 1, maxbit + 1)]
         if not desc["full_ranges"]:
             ranges = rng.sample(ranges, min(len(ranges), desc["sample_ranges"])) + [(0, 1), (maxbit - 1, maxbit), (0, maxbit)]
-        named = {tuple(bits): nm for nm, bits in bitdefs.items()}
+        named = {tuple(sorted(bits)): nm for nm, bits in bitdefs.items()}
         for a, b in ranges:
             n = b - a
             spellings = [("list", list(range(a, b))), ("slice", slice(a, b)), ("slice-step", slice(a, b, 1))]
             if n == 1:
                 spellings.append(("int", a))
             if tuple(range(a, b)) in named:
-                spellings.append(("name", named[tuple(range(a, b))]))
+                nm = named[tuple(range(a, b))]
+                spellings.append(("name-msb-first" if bitdefs[nm][0] > bitdefs[nm][-1] else "name", nm))
+            if n > 1:
+                # the same bits listed in another order are the same field
+                spellings.append(("list-descending", list(range(b - 1, a - 1, -1))))
+                shuffled = list(range(a, b))
+                rng.shuffle(shuffled)
+                spellings.append(("list-shuffled", shuffled))
+                if a > 0:
+                    spellings.append(("slice-negative-step", slice(b - 1, a - 1, -1)))
             if not desc["full_ranges"] or view != "local":
                 pass
             for sp_name, key in spellings:
